@@ -1,8 +1,15 @@
 #!/bin/sh
-# Run every filed seeded change against its property's quick check; one line each (expects exit=1 everywhere).
+# Run filed seeded changes against their property's quick check; one line each (expects exit=1 everywhere).
+# tools/run_seeds.sh            every seed under seeded/
+# tools/run_seeds.sh <glob>...  only the seeds whose directory name matches one of the shell patterns (e.g. 'C0[2-8]_1[0-2]')
 cd "$(dirname "$0")/.."
 for d in seeded/*/; do
   n=$(basename $d); pid=${n%_*}
+  if [ $# -gt 0 ]; then
+    keep=0
+    for pat in "$@"; do case "$n" in $pat) keep=1;; esac; done
+    [ $keep = 1 ] || continue
+  fi
   r=$(tools/seedtest.sh "$(pwd)/$d/patch.diff" $pid --tier quick 2>&1 | tail -1)
   echo "$n $r"
 done
